@@ -465,6 +465,119 @@ def check_initord(ck, prog):
     ck.floor("C10-INITORD", 25, "obligations")
 
 
+def check_reown(ck, prog):
+    """An init function that is handed an existing coder (the handle is re-used without lzma_end()) must release what
+    a member owns before it overwrites the member: the end function only sees the new value."""
+    ck.rule("C10-REOWN", "on the re-use path of an init function a member released by the end function is released "
+            "before it is overwritten")
+    n = 0
+    for f, rec, endname in sorted(coder_records(prog), key=lambda x: (x[0].file, x[0].line)):
+        if endname is None:
+            continue
+        file = f.file.rsplit("/", 1)[-1]
+        endf = prog.fn(endname, file)
+        rel = own.released_fields(prog, endf, rec, file)
+        if not rel:
+            continue
+        allocb = None
+        for b, i, e in f.iter_elems():
+            for (l, r, op, node) in ex.writes(e):
+                ls = ex.strip(l)
+                if allocb is None and ls is not None and ls.get("k") == "var" and r is not None and \
+                        any(c.get("fn") in ("lzma_alloc", "lzma_alloc_zero") for c in ex.calls(r)):
+                    allocb = b.id
+        if allocb is None:
+            continue
+        doms = cfg.dominators(f)
+        region = {x for x in f.blocks if allocb in doms.get(x, ())}
+        ftypes = {}
+        for rn in own.embedded_records(prog, rec):
+            for fd_ in (prog.records.get(rn) or {"fields": []})["fields"]:
+                ftypes[(rn, fd_["n"])] = fd_.get("ty", "")
+
+        def target(l):
+            """(rec, field) of the owned member that the lvalue overwrites, or None"""
+            ls = ex.strip(l)
+            chain = []
+            while ls is not None and ls.get("k") in ("mem", "idx"):
+                chain.append(ls)
+                ls = ex.strip(ls["b"])
+            # chain[-1] is the access closest to the root
+            order = list(reversed(chain))
+            for k_, x in enumerate(order):
+                if x.get("k") == "mem" and (x.get("rec"), x["f"]) in rel:
+                    key = (x.get("rec"), x["f"])
+                    inner = order[k_ + 1:]
+                    # coder->dict.buf is what is owned, coder->dict.pos is not: descend to the deepest owned member
+                    deeper = [y for y in inner if y.get("k") == "mem" and (y.get("rec"), y["f"]) in rel]
+                    if deeper:
+                        continue
+                    if any(y.get("k") == "mem" and any(rk[0] == y.get("rec") for rk in rel) for y in inner):
+                        return None          # another member of an embedded record that has its own owned members
+                    ty = ftypes.get(key, "")
+                    if not inner:
+                        return key
+                    if "*" in ty and "[" not in ty:
+                        return None          # store through the pointer, the pointer itself stays
+                    return key               # store into an embedded array / record that owns allocations
+            return None
+
+        def releases(e, key, depth=2):
+            for c in ex.calls(e, into_refs=False):
+                nm = c.get("fn")
+                if nm in own.RELEASERS:
+                    for a in c["args"][:2]:
+                        for x in ex.walk(a):
+                            if x.get("k") == "mem" and (x.get("rec"), x["f"]) == key:
+                                return True
+                elif nm and depth:
+                    for g in prog.functions.get(nm, []):
+                        if g.file == f.file and g.blocks and g is not f:
+                            if any(releases(ee, key, depth - 1) for bb, ii, ee in g.iter_elems()):
+                                return True
+            return False
+        for b, i, e in f.iter_elems():
+            if b.id in region:
+                continue
+            for (l, r, op, node) in ex.writes(e):
+                key = target(l)
+                if key is None:
+                    continue
+                # a value computed from the old one (lzma_index_hash_init(coder->index_hash, ...)) is a hand-over
+                if r is not None and any(x.get("k") == "mem" and (x.get("rec"), x["f"]) == key for x in ex.walk(r)):
+                    continue
+                n += 1
+                ck.saw_function(f)
+                # every path entry -> store that avoids the allocation region passes a release of the member
+                rb = {}
+                for bb, ii, ee in f.iter_elems():
+                    if releases(ee, key):
+                        rb[bb.id] = min(rb.get(bb.id, 1 << 30), ii)
+                seen, st, bad = set(), [f.entry], False
+                while st:
+                    x = st.pop()
+                    if x in seen or x in region or x is None:
+                        continue
+                    seen.add(x)
+                    if x == b.id and not (x in rb and rb[x] < i):
+                        bad = True
+                        break
+                    if x in rb:
+                        continue
+                    st.extend(f.blocks[x].succs)
+                nm = key[1] if key[0] == rec else "%s.%s" % key
+                ck.ob("C10-REOWN", "%s:%s@%s" % (f.name, nm, ex.line(node)), not bad, common.where(f, node),
+                      "%s(): `%s` on the re-use path is preceded by the release of member %s" % (f.name, ex.show(node)[:60], nm)
+                      if not bad else
+                      "%s(): `%s` overwrites member '%s' of an existing coder (handle re-used without lzma_end()) on a path "
+                      "on which what the member owned was not released (%s does it with %s): the old allocation is "
+                      "unreachable afterwards and is never returned to the allocator" % (
+                          f.name, ex.show(node)[:70], nm, endname, rel[key]),
+                      key="REOWN:%s:%s" % (f.name, nm))
+    ck.floor("C10-REOWN", 5)
+    return n
+
+
 def check_cachekey(ck, prog):
     """`if (K != wanted) { free(P); P = alloc(); if (P == NULL) return error; K = wanted; }`: the member K that
     says "P already has the right size" may only be updated once P is known to be non-NULL."""
@@ -997,6 +1110,7 @@ def run(ck):
     check_strong(ck, prog)
     check_initord(ck, prog)
     check_cachekey(ck, prog)
+    check_reown(ck, prog)
     check_sizekey(ck, prog)
     check_syncend(ck, prog)
     check_local_index(ck, prog)
